@@ -57,3 +57,11 @@ package directive
 //@ func (Enumeration).IsHTTPRequestMethod(de)
 //@   property C11
 //@   ensures[C11] result == isHTTPMethod(de)
+
+// thin safety contract: Path walks up the Parent chain (its recursion uses this contract)
+//@ extern strings.HasPrefix(s, prefix)
+//@   attr pure deterministic nopanic
+//@   ensures result == prefixof(prefix, s)
+//@ func (Directive).Path(d)
+//@   property C01
+//@   modifies nothing
